@@ -13,6 +13,7 @@ import (
 	"bytes"
 	"testing"
 
+	"github.com/oasisprotocol/curve25519-voi/primitives/ed25519"
 	"pgregory.net/rapid"
 	h "verifh"
 	ref "verifref"
@@ -77,3 +78,129 @@ func c15CheckWire(c c15WireCase) h.Result {
 }
 
 func TestC15WireBuffer(t *testing.T) { h.Run(t, c15GenWire, c15CheckWire) }
+
+// ---- the proving side on a shared buffer
+//
+// The prover takes Y = sk[32:] out of the caller's private key and hands it to
+// hash-to-curve and the challenge; alpha is the caller's as well.  With
+// sk = wire[:64] and alpha = wire[64:64+n] of ONE buffer (canary behind) an
+// append to either would overwrite the caller's bytes; the proof must be the
+// reference's and the buffer untouched, for all four provers.
+
+type c15ProveWireCase struct {
+	Seed  h.Hex
+	Alpha h.Hex
+	Ent   h.Hex
+}
+
+func c15GenProveWire(t *rapid.T) c15ProveWireCase {
+	ent, _ := h.C15Entropy(t, "ent")
+	return c15ProveWireCase{Seed: c15GenSeed(t, "seed"), Alpha: h.C15Alpha(t, "alpha"), Ent: ent}
+}
+
+func c15CheckProveWire(c c15ProveWireCase) h.Result {
+	r := h.NewR().NT(true)
+	if len(c.Alpha) == 0 {
+		r.Class("empty-alpha")
+	}
+	sk, pk := c15Key(c.Seed)
+	wire := append(append([]byte(nil), sk...), c.Alpha...)
+	wire = append(wire, bytes.Repeat([]byte{0xc5}, 96)...)
+	orig := append([]byte(nil), wire...)
+	wsk, walpha := ed25519.PrivateKey(wire[:64]), wire[64:64+len(c.Alpha)]
+	for _, v10 := range []bool{false, true} {
+		fm := c15Format(v10)
+		want := ref.VrfProve(c.Seed, pk, c.Alpha, nil, fm.f)
+		r.Eval(2)
+		if got := fm.prove(wsk, walpha); !bytes.Equal(got, want) {
+			return r.Fail("ecvrf.Prove"+fm.name+":wrong-proof-on-shared-buffer", "got %x want %x", got, want).Result()
+		}
+		if !bytes.Equal(wire, orig) {
+			return r.Fail("ecvrf.Prove"+fm.name+":wrote-to-caller-buffer", "the sk||alpha buffer was modified by proving").Result()
+		}
+		got, err := fm.proveR(&h.C15Reader{Data: append([]byte(nil), c.Ent...)}, wsk, walpha)
+		if err != nil || len(got) != ProofSize {
+			return r.Fail("ecvrf.ProveWithAddedRandomness"+fm.name+":spurious-error", "%v", err).Result()
+		}
+		if ok, _, why := ref.VrfVerify(pk, got, c.Alpha, fm.f); !ok {
+			return r.Fail("ecvrf.ProveWithAddedRandomness"+fm.name+":invalid-proof-on-shared-buffer", "%v pi=%x", why, got).Result()
+		}
+		if !bytes.Equal(wire, orig) {
+			return r.Fail("ecvrf.ProveWithAddedRandomness"+fm.name+":wrote-to-caller-buffer", "the sk||alpha buffer was modified by proving").Result()
+		}
+	}
+	return r.Result()
+}
+
+func TestC15ProveWireBuffer(t *testing.T) { h.Run(t, c15GenProveWire, c15CheckProveWire) }
+
+// ---- "any altered proof bit" as a sweep: every one of the 640 bits of two
+// honest proofs per format, and every bit of the public key, against the
+// reference verifier's verdict.
+
+type c15BitCase struct {
+	V10   bool
+	Which int // 0: proof bit, 1: public-key bit
+	Bit   int
+	Key   int
+}
+
+func c15CheckBit(c c15BitCase) h.Result {
+	r := h.NewR().NT(true)
+	fm := c15Format(c.V10)
+	seed := h.Expand(uint64(0x15b17+c.Key), 32)
+	_, pk := c15Key(seed)
+	alpha := h.Expand(uint64(0xa1fa+c.Key), 5+60*c.Key)
+	pi := ref.VrfProve(seed, pk, alpha, nil, fm.f)
+	pk = append([]byte(nil), pk...)
+	if c.Which == 0 {
+		pi[c.Bit/8] ^= 1 << uint(c.Bit%8)
+		r.Class("proof-bit")
+	} else {
+		pk[c.Bit/8] ^= 1 << uint(c.Bit%8)
+		r.Class("public-key-bit")
+	}
+	wantOK, wantBeta, _ := ref.VrfVerify(pk, pi, alpha, fm.f)
+	if !wantOK {
+		wantBeta = nil
+	}
+	r.Eval(1)
+	ok, beta := fm.verify(pk, pi, alpha)
+	if ok != wantOK || !bytes.Equal(beta, wantBeta) {
+		r.Fail("ecvrf.Verify"+fm.name+":altered-bit-wrong-verdict", "which=%d bit=%d: got (%v,%x) reference (%v,%x)", c.Which, c.Bit, ok, beta, wantOK, wantBeta)
+	}
+	if ok {
+		// an accepted alteration would have to be one the reference accepts too; count it
+		r.Class("alteration-accepted-by-both")
+	}
+	return r.Result()
+}
+
+// The sweep is cut into eight tests so that the driver can run the parts in
+// parallel (the reference verifier costs ~30 ms per case).
+func c15BitSweep(t *testing.T, part int) {
+	var cases []c15BitCase
+	n := 0
+	for _, v10 := range []bool{false, true} {
+		for b := 0; b < 640+256; b++ {
+			if n++; n%8 != part {
+				continue
+			}
+			if b < 640 {
+				cases = append(cases, c15BitCase{V10: v10, Which: 0, Bit: b})
+			} else {
+				cases = append(cases, c15BitCase{V10: v10, Which: 1, Bit: b - 640})
+			}
+		}
+	}
+	h.RunList(t, cases, c15CheckBit)
+}
+
+func TestC15BitSweep0(t *testing.T) { c15BitSweep(t, 0) }
+func TestC15BitSweep1(t *testing.T) { c15BitSweep(t, 1) }
+func TestC15BitSweep2(t *testing.T) { c15BitSweep(t, 2) }
+func TestC15BitSweep3(t *testing.T) { c15BitSweep(t, 3) }
+func TestC15BitSweep4(t *testing.T) { c15BitSweep(t, 4) }
+func TestC15BitSweep5(t *testing.T) { c15BitSweep(t, 5) }
+func TestC15BitSweep6(t *testing.T) { c15BitSweep(t, 6) }
+func TestC15BitSweep7(t *testing.T) { c15BitSweep(t, 7) }
